@@ -24,7 +24,7 @@
 #include <libxml/parser.h>
 #include <libxml/tree.h>
 
-#define MAXSLOT 256
+#define MAXSLOT 4096
 static xmpp_stanza_t *slots[MAXSLOT];
 static int slot_set[MAXSLOT];
 
@@ -229,7 +229,7 @@ static void reread(xmpp_ctx_t *ctx, const char *text)
         xmlDocPtr d;
         strcpy(doc, pre); strcat(doc, text); strcat(doc, post);
         d = xmlReadMemory(doc, (int)l, "c09.xml", "UTF-8",
-                          XML_PARSE_NONET | XML_PARSE_NOERROR | XML_PARSE_NOWARNING | XML_PARSE_HUGE);
+                          XML_PARSE_NONET | XML_PARSE_NOENT | XML_PARSE_NOERROR | XML_PARSE_NOWARNING | XML_PARSE_HUGE);
         fputs(" X:", aux);
         if (!d) fputs("ERRPARSE", aux);
         else {
